@@ -187,7 +187,7 @@ func checkConjugate(t *vlib.T, sp uvSpec, p []float64) {
 		if wk == "frac" {
 			B.w = nil // mixed: weighted batch followed by an unweighted one
 		}
-		vlib.Product(radices, func(ix []int) {
+		each := func(ix []int) {
 			s := make([]float64, nss)
 			for j := range s {
 				s[j] = conjStrengths[ix[j]]
@@ -263,7 +263,8 @@ func checkConjugate(t *vlib.T, sp uvSpec, p []float64) {
 				}
 			}
 			laws += 6
-		})
+		}
+		vlib.Product(radices, func(ix []int) bool { each(ix); return true })
 	}
 	// documented panics: wrong lengths
 	pv := c.newPtr()
